@@ -5,8 +5,12 @@ Obligations : coq/Props/C17.v (backward never fails on a well-formed graph of an
               children, retain only themselves and are never traversed into)
 Ties        : K  chains of 150 / 300 sequential ops and untracked update loops: recorded arena, buffers and closure log vs the
                  model (exact); recorded arena vs the wrapper contract
-              K  deep chains (10^3, 10^4, 5*10^4 ops) in a subprocess: completes, every closure exactly once, count = number
-                 of has_fn nodes (theorem calls_linear), exact gradient; weak-reference liveness of operands of untracked results
+              K  deep chains (10^3, 10^4, 5*10^4 steps) in subprocesses, the chain carried by every operand position (first /
+                 second / third operand, matmul left and right, unary, list ops, mixed): completes, every closure exactly once,
+                 count = number of has_fn nodes (theorem calls_linear), zero_() calls within theorem zero_calls_linear's bound,
+                 exact gradient; stacked diamonds of depth 20/60/200 (2^depth paths): the same counts, 30 s wall-clock cap;
+                 weak-reference liveness of operands of untracked results: update loops (incl. concat/stack/unbind with a
+                 parameter under no_grad) and every op of lib/opcatalog.py in both untracked modes
               T  source census: Tensor.backward orders the graph with a loop (no nested function, no recursion)
 Oracle      : the probes themselves (completion, call counts, exact gradient, liveness) judged without the model.
 """
@@ -18,13 +22,49 @@ SITE_DEEP = "tensor.Tensor.backward/deep-graph"
 SITE_MEM = "tensor.Tensor.__init__/untracked-history"
 
 
-def probe(args, timeout=600):
-    env = {"VERIF_REPO": common.REPO, "PYTHONPATH": common.ROOT}
-    rc, out = common.sh("%s -m lib.engine_probe %s" % (common.PY, " ".join(str(a) for a in args)), timeout=timeout, cwd=common.ROOT, env=env)
+def _parse(rc, out, args, timeout):
     m = re.search(r"^PROBE (.*)$", out, re.M)
+    if rc == 124 or "[TIMEOUT" in out:
+        return {"ok": False, "timeout_s": timeout, "args": list(args), "error": "did not finish in %d s" % timeout}
     if rc != 0 or not m:
-        return {"ok": False, "error": "probe process failed (rc=%s): %s" % (rc, out[-300:])}
+        return {"ok": False, "args": list(args), "error": "probe process failed (rc=%s): %s" % (rc, out[-300:])}
     return json.loads(m.group(1))
+
+
+def probe(args, timeout=120):
+    env = {"VERIF_REPO": common.REPO, "PYTHONPATH": common.ROOT}
+    rc, out = common.sh("timeout %d %s -m lib.engine_probe %s" % (timeout, common.PY, " ".join(str(a) for a in args)), timeout=timeout + 20, cwd=common.ROOT, env=env)
+    return _parse(rc, out, args, timeout)
+
+
+class Probes:
+    """Probes started in the background (own processes), collected later."""
+
+    def __init__(self, par=14):
+        self.par, self.queue, self.running, self.res = par, [], [], {}
+
+    def add(self, key, args, timeout):
+        self.queue.append((key, args, timeout))
+
+    def _start(self):
+        import subprocess
+        env = dict(os.environ, VERIF_REPO=common.REPO, PYTHONPATH=common.ROOT)
+        while self.queue and len(self.running) < self.par:
+            key, args, to = self.queue.pop(0)
+            p = subprocess.Popen("timeout %d %s -m lib.engine_probe %s" % (to, common.PY, " ".join(str(a) for a in args)), shell=True, cwd=common.ROOT,
+                                 env=env, stdout=subprocess.PIPE, stderr=subprocess.STDOUT, text=True)
+            self.running.append((key, args, to, p))
+
+    def pump(self):
+        self._start()
+
+    def collect(self):
+        while self.queue or self.running:
+            self._start()
+            key, args, to, p = self.running.pop(0)
+            out, _ = p.communicate()
+            self.res[key] = _parse(p.returncode, out, args, to)
+        return self.res
 
 
 def chain_program(n):
@@ -38,6 +78,18 @@ def chain_program(n):
         cur = i + 1
     steps.append({"k": "backward", "root": cur, "seed": [1]})
     steps.append({"k": "backward", "root": cur, "seed": [2]})
+    return steps
+
+
+def diamond_program(depth):
+    steps = [{"k": "leaf", "id": 0, "data": [1], "shape": [1], "req": True}, {"k": "leaf", "id": 1, "data": [1], "shape": [1], "req": False}]
+    cur, nid = 0, 2
+    for i in range(depth):
+        steps.append({"k": "op", "op": "mul", "args": [cur, 1], "out": [nid]})
+        steps.append({"k": "op", "op": "add", "args": [cur, nid], "out": [nid + 1]})
+        cur = nid + 1
+        nid += 2
+    steps.append({"k": "backward", "root": cur, "seed": [1]})
     return steps
 
 
@@ -83,7 +135,36 @@ def census():
     return probs
 
 
+CHAIN_VARIANTS = ["first_mul", "second_mul", "second_add", "alternating", "unary", "matmul_right", "matmul_left",
+                  "addmm_first", "addmm_second", "addmm_third", "concat_second", "concat_first", "stack_second", "tensor_scalar_mix"]
+DIAMOND_VARIANTS = ["const_w", "param_w", "triple", "matmul"]
+LOOP_MODES = [("no_grad", 300), ("plain", 300), ("concat_param", 300), ("concat_traj", 80), ("stack_param", 300), ("unbind_param", 300)]
+
+
+def chain_ok(r):
+    good = (r.get("ok") and r["grad_exact"] and r["calls"] == r["closures"] and r["max_calls"] == 1 and r["zero_calls"] <= r["bound"])
+    if good and "calls_after_second_call" in r:
+        good = r["calls_after_second_call"] == [2] and r["grad_after_second_call"] == 2 * r["grad"][0]
+    return bool(good)
+
+
 def run(ctx):
+    # probes run in their own processes while Coq builds
+    P = Probes()
+    sizes = [1000, 10000, 50000]
+    for n in sizes:
+        for v in CHAIN_VARIANTS:
+            P.add(("chain", v, n), ["chain", n, v], 120)
+    depths = [20, 60, 200]
+    for d in depths:
+        for v in DIAMOND_VARIANTS:
+            P.add(("diamond", v, d), ["diamond", d, v], 30)
+    for mode, it in LOOP_MODES:
+        P.add(("loop", mode), ["untracked", it, mode], 60)
+    P.add(("loop", "tracked"), ["untracked", 50, "tracked"], 60)
+    P.add(("catalog",), ["catalog"], 120)
+    P.pump()
+
     ctx.build_props(extra_targets=["Engine/History.vo"])
 
     # ---- T: the traversal is a loop ------------------------------------------------------------
@@ -92,16 +173,15 @@ def run(ctx):
 
     # ---- K: chains and untracked loops through the model ------------------------------------------
     progs = [chain_program(150), chain_program(300 if ctx.quick else 500), untracked_program(30, "no_grad"), untracked_program(30, "plain"),
-             untracked_program(12, "tracked")]
+             untracked_program(12, "tracked"), diamond_program(12)]
     execs = [K.execute(p) for p in progs]
     tm, cm, errs = K.run_corr(ctx, execs, "deep", chunk=1)
     mism = list(errs) + [{"program": K.describe(progs[i])[:6], "n_steps": len(progs[i])} for i in tm]
-    ctx.tie("engine/chains and untracked loops vs model", "correspondence", len(execs), len(execs), mism,
-            note="chains of 150 and 300 [thorough: 500] sequential ops (two backward calls each), untracked update loops whose result is then used in a "
-                 "tracked graph: all buffers and the closure-call sequence, exactly")
+    ctx.tie("engine/chains, stacked diamonds and untracked loops vs model", "correspondence", len(execs), len(execs), mism,
+            note="chains of 150 and 300 [thorough: 500] sequential ops (two backward calls each), 12 stacked diamonds (2^12 paths), untracked "
+                 "update loops whose result is then used in a tracked graph: all buffers and the closure-call sequence, exactly")
     mism = list(errs) + [{"program": K.describe(progs[i])[:6], "arena_tail": K.arena_of(execs[i].R)[-6:]} for i in cm]
     ctx.tie("engine/arena vs wrapper contract (untracked results keep no children)", "correspondence", len(execs), len(execs), mism)
-    # model-side reading of the untracked loops: the last untracked value retains only itself
     for E, p in zip(execs[2:4], progs[2:4]):
         ar = K.arena_of(E.R)
         bad = [i for i, (ch, rq, fn, rt) in enumerate(ar) if not rq and ch]
@@ -109,38 +189,71 @@ def run(ctx):
             ctx.witness(SITE_MEM, "untracked-children", {"steps": p, "program": K.describe(p)[:8]},
                         "a result that does not require grad has _children == ()", {"nodes_with_children": bad[:5]})
 
-    # ---- probes in a subprocess ----------------------------------------------------------------------
-    sizes = [1000, 10000, 50000]
-    rows = []
-    mism = []
-    for n in sizes:
-        r = probe(["chain", n])
-        rows.append(r)
-        good = (r.get("ok") and r["grad"] == r["expected"] and r["calls"] == r["closures"] and r["max_calls"] == 1
-                and r["intermediates_released"] and r["grad_after_second_call"] == 2 * r["expected"]
-                and r["calls_after_second_call"] == [2])
-        if not good:
-            mism.append(r)
-            ctx.witness(SITE_DEEP, "deep-chain", {"chain_length": n, "program": "x = Tensor([1.], requires_grad=True); y = x; repeat %d times: y = y*1.0 | y*-1.0 | y+x; y.backward()" % n},
-                        "backward completes, each of the %d closures is called exactly once, x.grad == dy/dx" % n, r)
-    ctx.tie("deep chains 10^3 / 10^4 / 5*10^4: completion, one call per closure, exact gradient", "correspondence", len(sizes), len(sizes), mism,
-            note="run in a subprocess; count compared with the number of has_fn nodes (theorem calls_linear); " + json.dumps(rows)[:600])
-    mism = []
-    live = []
-    for mode in ("no_grad", "plain"):
-        r = probe(["untracked", 300, mode])
+    R = P.collect()
+
+    # ---- deep chains, the chain carried by every operand position -----------------------------------
+    rows, mism = [], []
+    for v in CHAIN_VARIANTS:
+        for n in sizes:
+            r = R[("chain", v, n)]
+            rows.append(r)
+            if not chain_ok(r):
+                mism.append(r)
+    for r in sorted(mism, key=lambda r: (r.get("n") or (r.get("args") or [0, 0])[1]))[:2]:
+        n = r.get("n") or r["args"][1]
+        v = r.get("variant") or r["args"][2]
+        ctx.witness(SITE_DEEP, "deep-chain", {"chain_length": int(n), "variant": v,
+                    "program": "x = Tensor(requires_grad=True); y = x; repeat %s times one step of variant %r (lib/engine_probe.py: chain); y.backward()" % (n, v)},
+                    "backward completes, each closure is called exactly once, zero_() calls <= sum(1+#operands), x.grad exact", r)
+    ctx.tie("deep chains 10^3 / 10^4 / 5*10^4, chain carried by every operand position", "correspondence", len(rows), len(rows), mism,
+            note="variants: %s; run in subprocesses; closure count = number of has_fn nodes (theorem calls_linear), zero_() calls <= theorem "
+                 "zero_calls_linear's bound, exact gradient, second call accumulates" % ", ".join(CHAIN_VARIANTS))
+
+    # ---- reconvergent graphs: work must be linear in the graph, not in the number of paths -------------
+    drows, mism = [], []
+    for v in DIAMOND_VARIANTS:
+        for d in depths:
+            r = R[("diamond", v, d)]
+            drows.append(r)
+            good = (r.get("ok") and r["grad_exact"] and r["calls"] == r["closures"] and r["max_calls"] == 1
+                    and r["zero_calls"] <= r["bound"] and r["calls"] <= r["bound"])
+            if not good:
+                mism.append(r)
+    for r in sorted(mism, key=lambda r: (r.get("depth") or (r.get("args") or [0, 0])[1]))[:2]:
+        d = r.get("depth") or r["args"][1]
+        v = r.get("variant") or r["args"][2]
+        ctx.witness(SITE_DEEP, "reconvergent-graph", {"diamond_depth": int(d), "variant": v,
+                    "program": "x = Tensor([1.], requires_grad=True); h = x; repeat %s times: h = h + h*w; h.backward()   (%s ops, 2^%s paths)" % (d, 2 * int(d), d)},
+                    "each recorded operation is visited once: closure calls = ops, Tensor.zero_ calls <= sum over reached tensors of (1 + #operands), finishes in milliseconds",
+                    r)
+    ctx.tie("stacked diamonds of depth 20 / 60 / 200 (2^depth paths): linear work", "correspondence", len(drows), len(drows), mism,
+            note="closure calls, Tensor.zero_ calls counted from outside against the linear bound; wall-clock cap 30 s; " + json.dumps(drows[:3])[:500])
+
+    # ---- untracked computations keep nothing ----------------------------------------------------------------
+    mism, live = [], []
+    for mode, it in LOOP_MODES:
+        r = R[("loop", mode)]
         live.append(r)
         good = ("earlier_operands_alive" in r and r["earlier_operands_alive"] <= 1 and r["children_empty"] and r["results_untracked"])
         if not good:
             mism.append(r)
-            ctx.witness(SITE_MEM, "untracked-liveness", {"iterations": 300, "mode": mode,
-                        "program": "p = Tensor(..); repeat 300: (with no_grad():) p = p - g*0.5 ; weakref to every earlier p; gc.collect()"},
-                        "operands of untracked results are collectable (_children == ()), memory bounded", r)
-    ctl = probe(["untracked", 50, "tracked"])
-    live.append(ctl)
-    ctx.tie("untracked update loops: earlier operands are collected", "correspondence", 2, 2, mism,
-            note="weak references + gc.collect(); control (tracked loop keeps its history): " + json.dumps(live)[:500])
-    ctx.sample({"deep_chain_probes": rows})
+            ctx.witness(SITE_MEM, "untracked-liveness", {"iterations": it, "mode": mode,
+                        "program": "update loop of %d untracked steps, mode %r (lib/engine_probe.py: untracked); weakref to every earlier iterate; gc.collect()" % (it, mode)},
+                        "operands of untracked results are collectable (_children == (), grad_fn None), memory bounded", r)
+    live.append(R[("loop", "tracked")])
+    ctx.tie("untracked update loops (incl. concat/stack/unbind with a parameter under no_grad): earlier iterates are collected", "correspondence",
+            len(LOOP_MODES), len(LOOP_MODES), mism,
+            note="weak references + gc.collect(); control (tracked loop keeps its history): " + json.dumps(live)[:700])
+    r = R[("catalog",)]
+    bad = r.get("bad") if "bad" in r else [r]
+    if bad:
+        ctx.witness(SITE_MEM, "untracked-op", {"catalog_op": bad[0].get("op"), "mode": bad[0].get("mode"),
+                    "program": "out = %s(operands) computed without tracking (%s); del operands; gc.collect()" % (bad[0].get("op"), bad[0].get("mode"))},
+                    "_children == (), grad_fn is None, requires_grad False, operands collected", bad[0])
+    ctx.tie("every catalogued op computed without tracking keeps nothing", "correspondence", r.get("cases", 0), r.get("cases", 0), bad, exhaustive=True,
+            note="lib/opcatalog.py ops x {inside no_grad with operands that require grad, grad mode on with operands that do not}")
+    ctx.sample({"deep_chain_probes": [rr for rr in rows if rr.get("n") == 50000][:4]})
+    ctx.sample({"diamond_probes": drows[-3:]})
     ctx.sample({"liveness_probes": live})
 
 
@@ -152,13 +265,22 @@ def replay(ctx, data):
         print(json.dumps(data.get("broken"), indent=1)); return 1
     inp = data["input"]
     if "chain_length" in inp:
-        r = probe(["chain", inp["chain_length"]])
+        r = probe(["chain", inp["chain_length"], inp.get("variant", "tensor_scalar_mix")])
         print(r)
-        return 0 if (r.get("ok") and r.get("max_calls") == 1 and r.get("grad") == r.get("expected")) else 1
+        return 0 if chain_ok(r) else 1
+    if "diamond_depth" in inp:
+        r = probe(["diamond", inp["diamond_depth"], inp.get("variant", "const_w")], timeout=30)
+        print(r)
+        return 0 if (r.get("ok") and r.get("grad_exact") and r.get("max_calls") == 1 and r["zero_calls"] <= r["bound"]) else 1
     if "iterations" in inp:
         r = probe(["untracked", inp["iterations"], inp["mode"]])
         print(r)
-        return 0 if (r.get("earlier_operands_alive", 99) <= 1 and r.get("children_empty")) else 1
+        return 0 if (r.get("earlier_operands_alive", 99) <= 1 and r.get("children_empty") and r.get("results_untracked")) else 1
+    if "catalog_op" in inp:
+        r = probe(["catalog"])
+        bad = [b for b in r.get("bad", [r]) if b.get("op") == inp["catalog_op"]]
+        print(bad)
+        return 1 if bad else 0
     E = K.execute(inp["steps"])
     bad = [i for i, (ch, rq, fn, rt) in enumerate(K.arena_of(E.R)) if not rq and ch]
     print("untracked nodes with children:", bad[:10])
